@@ -1021,3 +1021,9 @@ mod test {
         println!("bytes_sent {bytes_sent}");
     }
 }
+
+// Verification hook (guard: `--cfg ipa_verif`, test builds only). Compiled out unless the guard is set.
+#[cfg(all(test, ipa_verif))]
+pub(crate) mod ipa_verif_h4 {
+    include!(concat!(env!("IPA_VERIF_DIR"), "/h4_dp.rs"));
+}
